@@ -1,7 +1,8 @@
 ------------------------------ MODULE Trace_Stream ------------------------------
 (***************************************************************************)
 (* code -> spec for the stream API.  runs.json: recorded executions of the *)
-(* real GherkinEvents over a sequence of sources with one option set; for  *)
+(* real GherkinEvents over a sequence of sources, with the option set in   *)
+(* force for each source (the caller may change it between sources); for   *)
 (* every source the envelopes it yielded (projected onto the abstract      *)
 (* envelopes of Stream.tla) and the SHAPE of each raw envelope.            *)
 (* One initial state per run; one step per source (action ProcessNext is   *)
@@ -22,7 +23,8 @@ Report(clause, detail) == IF PrintT(<<"SMISMATCH", ToJson([rid |-> vRid, name |-
 ProcessNext ==
    /\ vBad = <<>> /\ vIdx <= Len(Run.sources)
    /\ LET src == Run.sources[vIdx]
-          r == Process(src, vNid, Run.opts)
+          opts == Run.optseq[vIdx]
+          r == Process(src, vNid, opts)
           got == Run.envs[vIdx]
           shapes == Run.shapes[vIdx]
           accepted == \A j \in 1..Len(got) : got[j].k # "error"
@@ -31,7 +33,7 @@ ProcessNext ==
       /\ vBad' = IF r.out # got THEN Report("envelopes", [spec |-> r.out])
                  ELSE IF badShape # {} THEN Report("shape", [index |-> CHOOSE j \in badShape : TRUE])
                  ELSE IF ~P_C17_Order(got) THEN Report("order", <<>>)
-                 ELSE IF ~P_C17_Options(got, Run.opts, accepted) THEN Report("options", <<>>)
+                 ELSE IF ~P_C17_Options(got, opts, accepted) THEN Report("options", <<>>)
                  ELSE IF ~P_C17_Uri(got, src) THEN Report("uri", <<>>)
                  ELSE <<>>
       /\ vIdx' = vIdx + 1
